@@ -719,7 +719,8 @@ def history_case(rng, max_dim, max_n):
         if len(full) >= 5:
             break
     inner = full[1:-1]
-    k = rng.randint(max(1, len(inner) // 2), max(1, min(len(inner) - 1, max_n - 3)))
+    hi = max(1, min(len(inner) - 1, max_n - 3))
+    k = rng.randint(min(max(1, len(inner) // 2), hi), hi)
     keep = sorted(rng.sample(range(len(inner)), min(k, len(inner))))
     exts = [full[0]] + [inner[i] for i in keep] + [full[-1]]
     spare = [inner[i] for i in range(len(inner)) if i not in keep]
